@@ -652,3 +652,265 @@ Proof.
   - apply T_init.
   - apply T_step; try assumption. now apply Reach_Inv.
 Qed.
+
+(* ================================================================== *)
+(* Consequences for reachable states (properties C02 and C04)          *)
+(* ================================================================== *)
+
+Lemma tr_In r e l : In e (tr r l) -> In e l.
+Proof. intros H. now apply In_tr in H. Qed.
+
+Lemma In_tr_about r e l : In e l -> about r e = true -> In e (tr r l).
+Proof. intros. apply In_tr. auto. Qed.
+
+(* the events that mention r: nothing, the issue event alone, or a closed shape *)
+Lemma shapes cfg s r : T cfg s ->
+  tr r (log s) = []
+  \/ exists prov cons fee,
+       tr r (log s) = [EvIssue r prov cons fee] \/ closed cfg r prov cons fee (tr r (log s)).
+Proof.
+  intros (_ & Hsh). specialize (Hsh r). destruct (get r (reqs s)) as [q|]; cbn [ShR] in Hsh.
+  - destruct Hsh as (cons & H). right. exists (r_prov q), cons, (r_fee q).
+    destruct (r_active q); [now left|now right].
+  - destruct Hsh as [E|(prov & cons & fee & H)]; [now left|]. right. exists prov, cons, fee. now right.
+Qed.
+
+Ltac shape_cases H E :=
+  destruct H as [E|(?prov & ?cons & ?fee & [E|[E|[(?k & ?amt & E)|[(?Hf & E)|(?Hf & ?k & ?amt & E)]]]])].
+
+(* (#issue, #respond, #earn, #tax, #refund, #slash, #expire) for request r *)
+Definition counts (r : ReqId) (l : list Event) : nat * nat * nat * nat * nat * nat * nat :=
+  (count (is_issue r) l, count (is_respond r) l, count (is_earn r) l, count (is_tax r) l,
+   count (is_refund r) l, count (is_slash r) l, count (is_expire r) l).
+
+Lemma counts_tr r l : counts r (tr r l) = counts r l.
+Proof.
+  unfold counts.
+  rewrite (count_tr _ r l (is_issue_about r)), (count_tr _ r l (is_respond_about r)),
+    (count_tr _ r l (is_earn_about r)), (count_tr _ r l (is_tax_about r)),
+    (count_tr _ r l (is_refund_about r)), (count_tr _ r l (is_slash_about r)),
+    (count_tr _ r l (is_expire_about r)). reflexivity.
+Qed.
+
+Ltac count_shape :=
+  unfold counts, count;
+  repeat (cbn [filter is_issue is_respond is_earn is_tax is_refund is_slash is_expire length];
+          rewrite ?eqb_refl);
+  try reflexivity.
+
+(* the master counting theorem: six possible count vectors *)
+Theorem trace_counts cfg s r : T cfg s ->
+  (counts r (log s) = (0, 0, 0, 0, 0, 0, 0)
+   \/ counts r (log s) = (1, 0, 0, 0, 0, 0, 0)       (* issued, open *)
+   \/ counts r (log s) = (1, 1, 1, 1, 0, 0, 0)       (* answered: tax + earnings *)
+   \/ counts r (log s) = (1, 1, 0, 0, 1, 1, 0)       (* malformed answer: slash + refund *)
+   \/ counts r (log s) = (1, 0, 0, 0, 0, 0, 1)       (* timed out in super mode (fee 0) *)
+   \/ counts r (log s) = (1, 0, 0, 0, 1, 1, 1))%nat. (* timed out: slash + refund *)
+Proof.
+  intros HT. pose proof (shapes cfg s r HT) as H. rewrite <- (counts_tr r (log s)).
+  shape_cases H E; rewrite E.
+  - left. reflexivity.
+  - right; left. count_shape.
+  - right; right; left. count_shape.
+  - right; right; right; left. count_shape.
+  - right; right; right; right; left. count_shape.
+  - right; right; right; right; right. count_shape.
+Qed.
+
+(* ---- T1: ids are fresh ---- *)
+
+Theorem ids_fresh cfg s : wf_cfg cfg -> Reach cfg s ->
+  (forall r, (count (is_issue r) (log s) <= 1)%nat)
+  /\ (forall r p cons f, In (EvIssue r p cons f) (log s) ->
+        In (EvCtxCreated (rid_ctx r)) (log s)
+        /\ forall rc, get (rid_ctx r) (ctxs s) = Some rc -> rid_batch r <= c_counter rc)
+  /\ (forall c rc h i, get c (ctxs s) = Some rc ->
+        count (is_issue (c, c_counter rc + 1, h, i)) (log s) = 0%nat)
+  /\ (forall c r, ctx_fresh s c -> rid_ctx r = c -> count (is_issue r) (log s) = 0%nat).
+Proof.
+  intros Hcfg HR. pose proof (Reach_T cfg s Hcfg HR) as HT.
+  assert (Hpos : forall r, count (is_issue r) (log s) <> 0%nat -> exists p cons f, In (EvIssue r p cons f) (log s)).
+  { intros r Hn. destruct (count_pos_In (is_issue r) (log s)) as (e & Hin & He); [lia|].
+    destruct e; cbn [is_issue] in He; try discriminate. apply eqb_true in He. subst. eauto. }
+  split; [|split; [|split]].
+  - intros r. destruct (trace_counts cfg s r HT) as [E|[E|[E|[E|[E|E]]]]];
+      unfold counts in E; injection E; intros; lia.
+  - intros r p cons f Hin. destruct HT as (Hti & _). destruct (Hti _ _ _ _ Hin) as (Hc & Hrc).
+    split; [exact Hc|]. intros rc G. apply (Hrc rc G).
+  - intros c rc h i G.
+    destruct (Nat.eq_dec (count (is_issue (c, c_counter rc + 1, h, i)) (log s)) 0) as [E|Hn]; [exact E|].
+    exfalso. destruct (Hpos _ Hn) as (p & cons & f & Hin).
+    destruct HT as (Hti & _). destruct (Hti _ _ _ _ Hin) as (_ & Hrc).
+    cbn [rid_ctx rid_batch fst snd] in Hrc. destruct (Hrc rc G) as (Hle & _). lia.
+  - intros c r Hf Hc.
+    destruct (Nat.eq_dec (count (is_issue r) (log s)) 0) as [E|Hn]; [exact E|].
+    exfalso. destruct (Hpos _ Hn) as (p & cons & f & Hin).
+    destruct HT as (Hti & _). destruct (Hti _ _ _ _ Hin) as (Hcr & _). rewrite Hc in Hcr. exact (Hf Hcr).
+Qed.
+
+(* ---- T2: a stored request has exactly one issue event, with its parties and fee ---- *)
+
+Theorem stored_issued cfg s r q : wf_cfg cfg -> Reach cfg s -> get r (reqs s) = Some q ->
+  exists rc, get (rid_ctx r) (ctxs s) = Some rc
+    /\ In (EvIssue r (r_prov q) (c_cons rc) (r_fee q)) (log s)
+    /\ count (is_issue r) (log s) = 1%nat
+    /\ (c_super rc = true <-> r_fee q = 0).
+Proof.
+  intros Hcfg HR G. pose proof (Reach_T cfg s Hcfg HR) as HT. pose proof (Reach_Inv cfg s Hcfg HR) as HI.
+  destruct (inv_req _ _ HI) as (R1 & _). destruct (R1 _ _ (get_In _ _ _ G)) as (rc & Grc & _).
+  exists rc. split; [exact Grc|].
+  assert (Hin : exists cons, In (EvIssue r (r_prov q) cons (r_fee q)) (tr r (log s))).
+  { destruct HT as (_ & Hsh). specialize (Hsh r). rewrite G in Hsh. cbn [ShR] in Hsh.
+    destruct Hsh as (cons & H). exists cons. destruct (r_active q).
+    - rewrite H. now left.
+    - now apply closed_issue in H. }
+  destruct Hin as (cons & Hin). apply tr_In in Hin.
+  destruct HT as (Hti & Hsh). destruct (Hti _ _ _ _ Hin) as (_ & Hrc). destruct (Hrc _ Grc) as (_ & Ec & Es).
+  subst cons. split; [exact Hin|]. split; [|exact Es].
+  assert (Hp : (0 < count (is_issue r) (log s))%nat).
+  { eapply In_count_pos; [exact Hin|]. cbn [is_issue]. apply eqb_refl. }
+  destruct (trace_counts cfg s r (conj Hti Hsh)) as [E|[E|[E|[E|[E|E]]]]];
+    unfold counts in E; injection E; intros; lia.
+Qed.
+
+(* ---- the full per-request trace (the strongest form; everything else follows) ---- *)
+
+Theorem request_trace cfg s r : wf_cfg cfg -> Reach cfg s ->
+  match get r (reqs s) with
+  | Some q => exists cons,
+      if r_active q then tr r (log s) = [EvIssue r (r_prov q) cons (r_fee q)]
+      else closed cfg r (r_prov q) cons (r_fee q) (tr r (log s))
+  | None => tr r (log s) = [] \/ exists prov cons fee, closed cfg r prov cons fee (tr r (log s))
+  end.
+Proof. intros Hcfg HR. destruct (Reach_T cfg s Hcfg HR) as (_ & Hsh). apply (Hsh r). Qed.
+
+(* ---- T3: settled at most once, never both ways ---- *)
+
+Theorem settle_once cfg s r : wf_cfg cfg -> Reach cfg s ->
+  (count (is_earn r) (log s) + count (is_refund r) (log s) <= count (is_issue r) (log s))%nat
+  /\ (count (is_issue r) (log s) <= 1)%nat
+  /\ count (is_tax r) (log s) = count (is_earn r) (log s)
+  /\ (count (is_respond r) (log s) + count (is_expire r) (log s) <= count (is_issue r) (log s))%nat.
+Proof.
+  intros Hcfg HR. pose proof (Reach_T cfg s Hcfg HR) as HT.
+  destruct (trace_counts cfg s r HT) as [E|[E|[E|[E|[E|E]]]]];
+    unfold counts in E; injection E; intros; lia.
+Qed.
+
+Theorem active_unsettled cfg s r q : wf_cfg cfg -> Reach cfg s ->
+  get r (reqs s) = Some q -> r_active q = true ->
+  counts r (log s) = (1, 0, 0, 0, 0, 0, 0)%nat.
+Proof.
+  intros Hcfg HR G Ha. destruct (Reach_T cfg s Hcfg HR) as (_ & Hsh).
+  destruct (Sh_active cfg s r q Hsh G Ha) as (cons & E).
+  rewrite <- counts_tr, E. count_shape.
+Qed.
+
+(* an inactive stored request was settled exactly once -- except a time-out in super mode *)
+Theorem inactive_settled cfg s r q : wf_cfg cfg -> Reach cfg s ->
+  get r (reqs s) = Some q -> r_active q = false ->
+  (count (is_earn r) (log s) + count (is_refund r) (log s) = 1
+   /\ (count (is_respond r) (log s) + count (is_expire r) (log s) = 1))%nat
+  \/ (r_fee q = 0 /\ counts r (log s) = (1, 0, 0, 0, 0, 0, 1)%nat).
+Proof.
+  intros Hcfg HR G Ha. destruct (Reach_T cfg s Hcfg HR) as (_ & Hsh).
+  specialize (Hsh r). rewrite G in Hsh. cbn [ShR] in Hsh. rewrite Ha in Hsh.
+  destruct Hsh as (cons & [E|[(k & amt & E)|[(Hf & E)|(Hf & k & amt & E)]]]).
+  - left. assert (C : counts r (log s) = (1, 1, 1, 1, 0, 0, 0)%nat) by (rewrite <- counts_tr, E; count_shape).
+    unfold counts in C. injection C; intros; lia.
+  - left. assert (C : counts r (log s) = (1, 1, 0, 0, 1, 1, 0)%nat) by (rewrite <- counts_tr, E; count_shape).
+    unfold counts in C. injection C; intros; lia.
+  - right. split; [exact Hf|]. rewrite <- counts_tr, E. count_shape.
+  - left. assert (C : counts r (log s) = (1, 0, 0, 0, 1, 1, 1)%nat) by (rewrite <- counts_tr, E; count_shape).
+    unfold counts in C. injection C; intros; lia.
+Qed.
+
+(* ---- T4: amounts and parties ---- *)
+
+Ltac in_cases Hin :=
+  cbn [In] in Hin;
+  repeat match type of Hin with _ \/ _ => destruct Hin as [Hin|Hin] end;
+  try discriminate Hin; try contradiction.
+
+Theorem settle_party_amount cfg s r : wf_cfg cfg -> Reach cfg s ->
+  (forall p a, In (EvEarn r p a) (log s) ->
+     exists cons fee, In (EvIssue r p cons fee) (log s)
+       /\ In (EvTax r (mul_trunc fee (p_tax cfg))) (log s)
+       /\ a + mul_trunc fee (p_tax cfg) = fee)
+  /\ (forall t, In (EvTax r t) (log s) ->
+     exists p cons fee, In (EvIssue r p cons fee) (log s)
+       /\ t = mul_trunc fee (p_tax cfg) /\ In (EvEarn r p (fee - t)) (log s))
+  /\ (forall cns a, In (EvRefund r cns a) (log s) -> exists p, In (EvIssue r p cns a) (log s)).
+Proof.
+  intros Hcfg HR. pose proof (Reach_T cfg s Hcfg HR) as HT.
+  pose proof (shapes cfg s r HT) as H.
+  split; [|split].
+  - intros p a Hin. apply (In_tr_about r) in Hin; [|exact (eqb_refl r)].
+    shape_cases H E; rewrite E in Hin; in_cases Hin.
+    injection Hin as <- <-. exists cons, fee.
+    split; [apply (tr_In r); rewrite E; cbn [In]; auto 6|].
+    split; [apply (tr_In r); rewrite E; cbn [In]; auto 6|lia].
+  - intros t Hin. apply (In_tr_about r) in Hin; [|exact (eqb_refl r)].
+    shape_cases H E; rewrite E in Hin; in_cases Hin.
+    injection Hin as <-. exists prov, cons, fee.
+    split; [apply (tr_In r); rewrite E; cbn [In]; auto 6|].
+    split; [reflexivity|apply (tr_In r); rewrite E; cbn [In]; auto 6].
+  - intros cns a Hin. apply (In_tr_about r) in Hin; [|exact (eqb_refl r)].
+    shape_cases H E; rewrite E in Hin; in_cases Hin;
+      injection Hin as <- <-; exists prov; apply (tr_In r); rewrite E; cbn [In]; auto 6.
+Qed.
+
+(* ---- T5 / C04: slashing ---- *)
+
+Theorem slash_at_most_once cfg s r : wf_cfg cfg -> Reach cfg s ->
+  (count (is_slash r) (log s) <= 1)%nat /\ count (is_slash r) (log s) = count (is_refund r) (log s).
+Proof.
+  intros Hcfg HR. pose proof (Reach_T cfg s Hcfg HR) as HT.
+  destruct (trace_counts cfg s r HT) as [E|[E|[E|[E|[E|E]]]]];
+    unfold counts in E; injection E; intros; lia.
+Qed.
+
+(* a slash event has a cause: a time-out of a request with a positive fee (not super
+   mode), or an accepted response that was refunded (malformed output) *)
+Theorem slash_only_when_failing cfg s r k amt : wf_cfg cfg -> Reach cfg s ->
+  In (EvSlash r k amt) (log s) ->
+  exists p cons fee, In (EvIssue r p cons fee) (log s) /\ In (EvRefund r cons fee) (log s)
+    /\ ((In (EvExpire r) (log s) /\ 0 < fee /\ count (is_respond r) (log s) = 0%nat)
+        \/ (In (EvRespond r) (log s) /\ count (is_expire r) (log s) = 0%nat
+            /\ count (is_earn r) (log s) = 0%nat)).
+Proof.
+  intros Hcfg HR Hin. pose proof (Reach_T cfg s Hcfg HR) as HT.
+  pose proof (shapes cfg s r HT) as H.
+  apply (In_tr_about r) in Hin; [|exact (eqb_refl r)].
+  shape_cases H E; rewrite E in Hin; in_cases Hin;
+    exists prov, cons, fee;
+    (split; [apply (tr_In r); rewrite E; cbn [In]; auto 6|]);
+    (split; [apply (tr_In r); rewrite E; cbn [In]; auto 6|]).
+  - right. split; [apply (tr_In r); rewrite E; cbn [In]; auto 6|].
+    assert (C : counts r (log s) = (1, 1, 0, 0, 1, 1, 0)%nat) by (rewrite <- counts_tr, E; count_shape).
+    unfold counts in C. injection C; intros; auto.
+  - left. split; [apply (tr_In r); rewrite E; cbn [In]; auto 6|]. split; [exact Hf|].
+    assert (C : counts r (log s) = (1, 0, 0, 0, 1, 1, 1)%nat) by (rewrite <- counts_tr, E; count_shape).
+    unfold counts in C. injection C; intros; auto.
+Qed.
+
+(* conversely: every time-out of a request issued with a positive fee (i.e. not in
+   super mode) has its slash and its refund; a time-out with fee 0 has neither *)
+Theorem expiry_slashes cfg s r p cons fee : wf_cfg cfg -> Reach cfg s ->
+  In (EvExpire r) (log s) -> In (EvIssue r p cons fee) (log s) ->
+  (0 < fee -> (exists k amt, In (EvSlash r k amt) (log s)) /\ In (EvRefund r cons fee) (log s)
+              /\ counts r (log s) = (1, 0, 0, 0, 1, 1, 1)%nat)
+  /\ (fee = 0 -> counts r (log s) = (1, 0, 0, 0, 0, 0, 1)%nat).
+Proof.
+  intros Hcfg HR Hexp Hiss. pose proof (Reach_T cfg s Hcfg HR) as HT.
+  pose proof (shapes cfg s r HT) as H.
+  apply (In_tr_about r) in Hexp; [|exact (eqb_refl r)].
+  apply (In_tr_about r) in Hiss; [|exact (eqb_refl r)].
+  shape_cases H E; rewrite E in Hexp, Hiss; in_cases Hexp; in_cases Hiss;
+    injection Hiss as <- <- <-.
+  - split; [intros; lia|]. intros _. rewrite <- counts_tr, E. count_shape.
+  - split; [|intros; lia]. intros _.
+    split; [exists k, amt; apply (tr_In r); rewrite E; cbn [In]; auto 6|].
+    split; [apply (tr_In r); rewrite E; cbn [In]; auto 6|].
+    rewrite <- counts_tr, E. count_shape.
+Qed.
